@@ -335,6 +335,10 @@ func judge(r *mon.Rec, t *testing.T, sc scenario) {
 			bad("response-lost", "acceptable response arrived at %v; call returned err=%v msg=%v", sc.TA, o.err, o.gotMsg)
 			return
 		}
+		if o.resp.Damaged {
+			bad("response-damaged", "the call returned the response that arrived at %v, but not all of it (its trailer option is missing or changed)", sc.TA)
+			return
+		}
 	case "ctx":
 		want := context.Canceled
 		if sc.Event == "deadline" {
